@@ -85,7 +85,8 @@ class Ctx:
     def canon(self):
         if getattr(self, "_canon", None) is None:
             from .canon import Canon
-            self._canon = Canon(self.program)
+            self._canon = getattr(self.program, "_canon", None) or Canon(self.program)
+            self.program._canon = self._canon
         return self._canon
 
     def locate(self, qual: str):
